@@ -10,10 +10,9 @@ trailing bytes), whatever the meta data claim (shorter, longer, equal), every po
 fractional), offline and online reader.  The theorems below quantify over all `bytes`, `nc`, `itemsize`,
 `fileTimeSecs`, `fs`; the only restrictions are the stated magnitude bounds (2⁵⁰ frames offline, 2⁴⁰ bytes online),
 a non-empty file (an empty file cannot be mapped: `openBin … 0 = error emptyFile`, see the example), `nc, itemsize, fs > 0`,
-and — the recorded finding — that the meta data carry the keys the code subscripts: `fileTimeSecs` (offline reader) and,
-unless `ignore_warnings=True`, `fileSizeBytes` and `fileTimeSecs` for the warning text.  Without that hypothesis the
-full-strength statement is false for the code as it stands: `online_incomplete_meta_counterexample`,
-`offline_incomplete_meta_counterexample`.
+and — the recorded finding, offline reader only — that the meta data carry `fileTimeSecs`: on the meta data of a recording
+still in progress `Reader.ns` raises `TypeError` (`offline_incomplete_meta_counterexample`), while the online reader opens
+them (`online_open_std` holds for an absent `fileTimeSecs`).
 -/
 import IblVerif.Analysis.OpenSizeRounding
 import IblVerif.Analysis.OpenSizeBinary64
@@ -27,13 +26,12 @@ variable {T : Type}
 `A` that satisfies the round-trip law for the number of frames on disk (discharged by `seconds_roundtrip`).
 Whatever `fileTimeSecs` the meta data announce (consistent, too short, too long), `open` returns normally, keeps
 `nc` and `fs`, and afterwards `Reader.ns = bytes // (itemsize · nc)`. -/
-theorem exposed_eq_floor (A : Arith T) (iw : Bool) (nc : Nat) (fs fts : T) (hs : Bool) (itemsize bytes : Nat)
+theorem exposed_eq_floor (A : Arith T) (nc : Nat) (fs fts : T) (itemsize bytes : Nat)
     (hnc : 0 < nc) (hsz : 0 < itemsize) (hb : 0 < bytes) (hfs : A.isZero fs = false)
-    (hw : iw = true ∨ hs = true)
     (hrt : RoundTrip A fs (framesOnDisk bytes nc itemsize)) :
-    ∃ h', openBin A .offline iw (.ofMeta nc fs (some fts) hs) itemsize bytes = .ok h' ∧ h'.nc = nc ∧ h'.fs A = fs ∧
+    ∃ h', openBin A .offline (.ofMeta nc fs (some fts)) itemsize bytes = .ok h' ∧ h'.nc = nc ∧ h'.fs A = fs ∧
       nsOf A .offline h' itemsize bytes = .ok (framesOnDisk bytes nc itemsize) := by
-  obtain ⟨fts', ho, hns, _, _⟩ := openBin_offline_meta A iw nc fs fts hs itemsize bytes hnc hsz hb hfs hw hrt
+  obtain ⟨fts', ho, hns, _, _⟩ := openBin_offline_meta A nc fs fts itemsize bytes hnc hsz hb hfs hrt
   exact ⟨_, ho, rfl, rfl, by simp [nsOf, Hdr.nsOffline, hns]⟩
 
 /-- [core] **The exposed frames are exactly the complete frames and nothing lies beyond the file**: with
@@ -92,13 +90,13 @@ theorem seconds_roundtrip_binary64 (k : ℕ) (hk : k < 2 ^ 50) (fs : ℝ) (hfs :
 
 /-- [core] `exposed_eq_floor` with the round-trip law discharged: in the standard model the offline reader opens every
 non-empty file of fewer than 2⁵⁰ frames and exposes exactly the complete frames, for every announced duration. -/
-theorem offline_open_std (F : StdRounding) (iw : Bool) (nc : Nat) (fs fts : ℝ) (hs : Bool) (itemsize bytes : Nat)
-    (hnc : 0 < nc) (hsz : 0 < itemsize) (hb : 0 < bytes) (hfs : 0 < fs) (hw : iw = true ∨ hs = true)
+theorem offline_open_std (F : StdRounding) (nc : Nat) (fs fts : ℝ) (itemsize bytes : Nat)
+    (hnc : 0 < nc) (hsz : 0 < itemsize) (hb : 0 < bytes) (hfs : 0 < fs)
     (hk : framesOnDisk bytes nc itemsize < 2 ^ 50) :
-    ∃ h', openBin (realArith F) .offline iw (.ofMeta nc fs (some fts) hs) itemsize bytes = .ok h' ∧ h'.nc = nc ∧
+    ∃ h', openBin (realArith F) .offline (.ofMeta nc fs (some fts)) itemsize bytes = .ok h' ∧ h'.nc = nc ∧
       nsOf (realArith F) .offline h' itemsize bytes = .ok (framesOnDisk bytes nc itemsize) := by
-  obtain ⟨h', h1, h2, _, h4⟩ := exposed_eq_floor (realArith F) iw nc fs fts hs itemsize bytes hnc hsz hb
-    (by simp [realArith, hfs.ne']) hw (roundtrip_real F _ hk fs hfs)
+  obtain ⟨h', h1, h2, _, h4⟩ := exposed_eq_floor (realArith F) nc fs fts itemsize bytes hnc hsz hb
+    (by simp [realArith, hfs.ne']) (roundtrip_real F _ hk fs hfs)
   exact ⟨h', h1, h2, h4⟩
 
 /-- [core] **Online reader**: `int(size / itemsize / nc)` (two float divisions, truncation) is the floor for every size
@@ -112,56 +110,36 @@ theorem online_floor (F : StdRounding) (nc itemsize bytes : ℕ) (hnc : 0 < nc) 
   rw [if_neg (by omega), h]
   rfl
 
-/-- [core] The online reader opens every non-empty file below 2⁴⁰ bytes and exposes exactly the complete frames;
-`fileTimeSecs` may be absent from the meta data (recording in progress) provided the warning can be formatted
-(`ignore_warnings=True`, or both keys present). -/
-theorem online_open_std (F : StdRounding) (iw : Bool) (nc : Nat) (fs : ℝ) (fts : Option ℝ) (hs : Bool)
-    (itemsize bytes : Nat)
+/-- [core] The online reader opens every non-empty file below 2⁴⁰ bytes and exposes exactly the complete frames —
+also when `fileTimeSecs` is absent from the meta data (`fts = none`: SpikeGLX still recording), which is the property's
+"recording still in progress / online reader" case. -/
+theorem online_open_std (F : StdRounding) (nc : Nat) (fs : ℝ) (fts : Option ℝ) (itemsize bytes : Nat)
     (hnc : 0 < nc) (hsz : 0 < itemsize) (hb : 0 < bytes) (hfs : 0 < fs)
-    (hw : iw = true ∨ (hs = true ∧ fts.isSome = true))
     (hbb : bytes < 2 ^ 40) (hncb : nc < 2 ^ 40) (hszb : itemsize < 2 ^ 40) :
-    ∃ h', openBin (realArith F) .online iw (.ofMeta nc fs fts hs) itemsize bytes = .ok h' ∧ h'.nc = nc ∧
+    ∃ h', openBin (realArith F) .online (.ofMeta nc fs fts) itemsize bytes = .ok h' ∧ h'.nc = nc ∧
       nsOf (realArith F) .online h' itemsize bytes = .ok (framesOnDisk bytes nc itemsize) := by
-  obtain ⟨fts', h1, h2, _⟩ := openBin_online_meta (realArith F) iw nc fs fts hs itemsize bytes hnc hsz hb
-    (by simp [realArith, hfs.ne']) hw (online_floor_real F nc itemsize bytes hnc hsz hbb hncb hszb)
+  obtain ⟨fts', h1, h2, _⟩ := openBin_online_meta (realArith F) nc fs fts itemsize bytes hnc hsz hb
+    (by simp [realArith, hfs.ne']) (online_floor_real F nc itemsize bytes hnc hsz hbb hncb hszb)
   exact ⟨_, h1, rfl, h2⟩
 
-/-- **Finding (kept as a known finding, not repaired)** — the full-strength statement "the online reader opens every
-file of a recording in progress" is false for the code as it stands: with the meta data SpikeGLX writes while it is
-still acquiring (no `fileSizeBytes`, no `fileTimeSecs` — the repository's own fixture) and the default
-`ignore_warnings=False`, every size that is not a whole number of frames raises `KeyError` while the warning text
-is formatted.  Stated for every size with trailing bytes, every `nc`, `fs`, in the standard model. -/
-theorem online_incomplete_meta_counterexample (F : StdRounding) (nc : Nat) (fs : ℝ) (fts : Option ℝ)
-    (itemsize bytes : Nat) (hnc : 0 < nc) (hsz : 0 < itemsize) (hfs : 0 < fs)
-    (hbb : bytes < 2 ^ 40) (hncb : nc < 2 ^ 40) (hszb : itemsize < 2 ^ 40)
-    (htrail : bytes % (itemsize * nc) ≠ 0) :
-    openBin (realArith F) .online false (.ofMeta nc fs fts false) itemsize bytes = .error .keyError := by
-  apply openBin_online_keyError (realArith F) nc fs fts itemsize bytes hnc hsz (by simp [realArith, hfs.ne'])
-    (online_floor_real F nc itemsize bytes hnc hsz hbb hncb hszb)
-  intro h
-  apply htrail
-  unfold framesOnDisk at h
-  rw [← h, Nat.mul_comm nc, Nat.mul_assoc, Nat.mul_comm nc itemsize, Nat.mul_comm]
-  exact Nat.mul_mod_right _ _
-
-/-- **Finding, offline reader**: meta data without `fileTimeSecs` make `Reader.ns` raise `TypeError`
-(`None * fs`) before the file size is even looked at — for every arithmetic, size and flag. -/
-theorem offline_incomplete_meta_counterexample (A : Arith T) (iw : Bool) (nc : Nat) (fs : T) (hs : Bool)
+/-- **Finding (known finding `incomplete-meta-keys`, offline reader only)**: meta data without `fileTimeSecs` make
+`Reader.ns` raise `TypeError` (`None * fs`) before the file size is even looked at — for every arithmetic and size.
+The full-strength statement "the offline reader opens every file" is therefore false without `fileTimeSecs`. -/
+theorem offline_incomplete_meta_counterexample (A : Arith T) (nc : Nat) (fs : T)
     (itemsize bytes : Nat) :
-    openBin A .offline iw (.ofMeta nc fs none hs) itemsize bytes = .error .typeError := by
+    openBin A .offline (.ofMeta nc fs none) itemsize bytes = .error .typeError := by
   simp [openBin, nsOf, Hdr.nsOffline, bind, Except.bind]
 
 /-- [core] **The duration matches the exposed sample count**: after `open`, `rl` is the float quotient of the exposed
 count by the rate, and when the meta data had to be rewritten the stored `fileTimeSecs` is that same number. -/
-theorem duration_matches (A : Arith T) (iw : Bool) (nc : Nat) (fs fts : T) (hs : Bool) (itemsize bytes : Nat)
+theorem duration_matches (A : Arith T) (nc : Nat) (fs fts : T) (itemsize bytes : Nat)
     (hnc : 0 < nc) (hsz : 0 < itemsize) (hb : 0 < bytes) (hfs : A.isZero fs = false)
-    (hw : iw = true ∨ hs = true)
     (hrt : RoundTrip A fs (framesOnDisk bytes nc itemsize)) :
-    ∃ h', openBin A .offline iw (.ofMeta nc fs (some fts) hs) itemsize bytes = .ok h' ∧
+    ∃ h', openBin A .offline (.ofMeta nc fs (some fts)) itemsize bytes = .ok h' ∧
       rl A .offline h' itemsize bytes = .ok (A.div (A.ofNat (framesOnDisk bytes nc itemsize)) fs) ∧
       (nc * A.rint (A.mul fts fs) * itemsize ≠ bytes →
         h'.fileTimeSecs? = some (A.div (A.ofNat (framesOnDisk bytes nc itemsize)) fs)) := by
-  obtain ⟨fts', ho, hns, _, hrw⟩ := openBin_offline_meta A iw nc fs fts hs itemsize bytes hnc hsz hb hfs hw hrt
+  obtain ⟨fts', ho, hns, _, hrw⟩ := openBin_offline_meta A nc fs fts itemsize bytes hnc hsz hb hfs hrt
   refine ⟨_, ho, ?_, ?_⟩
   · simp [rl, nsOf, Hdr.nsOffline, Hdr.fs, hns, hfs, bind, Except.bind]
   · intro hne
@@ -176,40 +154,40 @@ theorem duration_close_std (F : StdRounding) (ns : ℕ) (hns : ns < 2 ^ 50) (fs 
 
 /-- [core] **Compressed stream shorter or longer than announced**: the `.cbin` reader exposes the number of samples the
 chunk file holds (`mtscomp.Reader.shape[0]`), whatever the `.meta` claims. -/
-theorem cbin_exposed (A : Arith T) (nc : Nat) (fs fts : T) (hs : Bool) (n : Nat)
+theorem cbin_exposed (A : Arith T) (nc : Nat) (fs fts : T) (n : Nat)
     (hfs : A.isZero fs = false) (hrt : RoundTrip A fs n) :
-    ∃ h', openCbin A (.ofMeta nc fs (some fts) hs) (n, nc) = .ok h' ∧ h'.nc = nc ∧ h'.nsOffline A = .ok n := by
-  obtain ⟨fts', ho, hns, _⟩ := openCbin_meta A nc fs fts hs n nc hfs hrt
+    ∃ h', openCbin A (.ofMeta nc fs (some fts)) (n, nc) = .ok h' ∧ h'.nc = nc ∧ h'.nsOffline A = .ok n := by
+  obtain ⟨fts', ho, hns, _⟩ := openCbin_meta A nc fs fts n nc hfs hrt
   exact ⟨_, ho, rfl, by simp [Hdr.nsOffline, hns rfl]⟩
 
 /-- [core] **Why the formula before the `fix:` commit failed** (`ftsec = size / itemsize / nc / fs`, then
 `round(ftsec · fs)`): a 7-byte file with 4-byte frames (one frame + ¾ frame of trailing bytes) gives `ns = 2` under
 every rounding function of the standard model, and `np.memmap` refuses the 8-byte map; the current code exposes the
 one complete frame. -/
-theorem round_counterexample (F : StdRounding) (iw : Bool) (fs fts : ℝ) (hfs : 0 < fs) :
-    openBinOld (realArith F) iw (.ofMeta 2 fs (some fts) true) 2 7 = .error .mmapTooLong ∧
+theorem round_counterexample (F : StdRounding) (fs fts : ℝ) (hfs : 0 < fs) :
+    openBinOld (realArith F) (.ofMeta 2 fs (some fts)) 2 7 = .error .mmapTooLong ∧
     framesOnDisk 7 2 2 = 1 ∧
-    ∃ h', openBin (realArith F) .offline iw (.ofMeta 2 fs (some fts) true) 2 7 = .ok h' ∧
+    ∃ h', openBin (realArith F) .offline (.ofMeta 2 fs (some fts)) 2 7 = .ok h' ∧
       nsOf (realArith F) .offline h' 2 7 = .ok 1 := by
-  refine ⟨old_formula_fails F iw fs fts hfs, by decide, ?_⟩
-  obtain ⟨h', h1, _, h3⟩ := offline_open_std F iw 2 fs fts true 2 7 (by norm_num) (by norm_num) (by norm_num) hfs
-    (Or.inr rfl) (by decide)
+  refine ⟨old_formula_fails F fs fts hfs, by decide, ?_⟩
+  obtain ⟨h', h1, _, h3⟩ := offline_open_std F 2 fs fts 2 7 (by norm_num) (by norm_num) (by norm_num) hfs
+    (by decide)
   exact ⟨h', h1, by simpa [framesOnDisk] using h3⟩
 
 /-! ### Non-vacuity and error branches -/
 
 /-- The hypotheses of `StdRounding` are satisfiable (exact arithmetic), so the `…_std` theorems are not vacuous. -/
-example : ∃ h', openBin (realArith exactRounding) .offline false (.ofMeta 385 30000 (some 1) true) 2 (770 * 5 + 769)
+example : ∃ h', openBin (realArith exactRounding) .offline (.ofMeta 385 30000 (some 1)) 2 (770 * 5 + 769)
       = .ok h' ∧ nsOf (realArith exactRounding) .offline h' 2 (770 * 5 + 769) = .ok 5 := by
-  obtain ⟨h', h1, _, h3⟩ := offline_open_std exactRounding false 385 30000 1 true 2 (770 * 5 + 769)
-    (by norm_num) (by norm_num) (by norm_num) (by norm_num) (Or.inr rfl) (by decide)
+  obtain ⟨h', h1, _, h3⟩ := offline_open_std exactRounding 385 30000 1 2 (770 * 5 + 769)
+    (by norm_num) (by norm_num) (by norm_num) (by norm_num) (by decide)
   exact ⟨h', h1, by simpa [framesOnDisk] using h3⟩
 
 /-- The same with genuine 53-bit rounding and a fractional rate. -/
-example : ∃ h', openBin (realArith binary64Rounding) .offline false (.ofMeta 385 30000.123456 (some 7) true) 2
+example : ∃ h', openBin (realArith binary64Rounding) .offline (.ofMeta 385 30000.123456 (some 7)) 2
       (770 * 5 + 769) = .ok h' ∧ nsOf (realArith binary64Rounding) .offline h' 2 (770 * 5 + 769) = .ok 5 := by
-  obtain ⟨h', h1, _, h3⟩ := offline_open_std binary64Rounding false 385 30000.123456 7 true 2 (770 * 5 + 769)
-    (by norm_num) (by norm_num) (by norm_num) (by norm_num) (Or.inr rfl) (by decide)
+  obtain ⟨h', h1, _, h3⟩ := offline_open_std binary64Rounding 385 30000.123456 7 2 (770 * 5 + 769)
+    (by norm_num) (by norm_num) (by norm_num) (by norm_num) (by decide)
   exact ⟨h', h1, by simpa [framesOnDisk] using h3⟩
 
 /-- Floor arithmetic on a truncated 385-channel file: 5 complete frames and 769 trailing bytes. -/
@@ -222,7 +200,7 @@ example : exposed [1, 2, 3, 4, 5, 6, 7] 2 3 = [[1, 2, 3], [4, 5, 6]] := by decid
 the meta data say; a flat reader (no meta data) told too many samples is refused by `np.memmap`. -/
 example (A : Arith T) (nc : Nat) (fs fts : T) (itemsize : Nat) (hnc : 0 < nc) (hsz : 0 < itemsize)
     (hfs : A.isZero fs = false) (hrt : RoundTrip A fs 0) :
-    openBin A .offline true (.ofMeta nc fs (some fts) true) itemsize 0 = .error .emptyFile := by
+    openBin A .offline (.ofMeta nc fs (some fts)) itemsize 0 = .error .emptyFile := by
   have hpos : itemsize * nc ≠ 0 := Nat.pos_iff_ne_zero.mp (Nat.mul_pos hsz hnc)
   by_cases hc : nc * A.rint (A.mul fts fs) * itemsize = 0
   · have h0 : A.rint (A.mul fts fs) = 0 := by
@@ -231,22 +209,19 @@ example (A : Arith T) (nc : Nat) (fs fts : T) (itemsize : Nat) (hnc : 0 < nc) (h
       · omega
     simp [openBin, nsOf, Hdr.nsOffline, Hdr.nc, memmap, h0, bind, Except.bind]
   · unfold RoundTrip at hrt
-    simp [openBin, nsOf, Hdr.nsOffline, Hdr.nc, Hdr.fs, Hdr.setFileTimeSecs, Hdr.warnBin, framesOnDisk, memmap, hc,
+    simp [openBin, nsOf, Hdr.nsOffline, Hdr.nc, Hdr.fs, Hdr.setFileTimeSecs, framesOnDisk, memmap, hc,
       hpos, hfs, hrt, bind, Except.bind, pure, Except.pure]
 example (A : Arith T) (hz : A.isZero (A.ofNat 30000) = false) :
-    openBin A .offline false (.flat 3 10 30000) 2 23 = .error .mmapTooLong := by
-  simp [openBin, nsOf, Hdr.nsOffline, Hdr.nc, Hdr.fs, Hdr.setFileTimeSecs, Hdr.warnBin, memmap, hz, bind,
+    openBin A .offline (.flat 3 10 30000) 2 23 = .error .mmapTooLong := by
+  simp [openBin, nsOf, Hdr.nsOffline, Hdr.nc, Hdr.fs, Hdr.setFileTimeSecs, memmap, hz, bind,
     Except.bind, pure, Except.pure]
 
-/-- The finding's hypotheses are satisfiable: the shipped fixture's situation, 10 frames and 400 trailing bytes. -/
-example : openBin (realArith exactRounding) .online false (.ofMeta 385 30000 none false) 2 8100 = .error .keyError :=
-  online_incomplete_meta_counterexample exactRounding 385 30000 none 2 8100 (by norm_num) (by norm_num)
-    (by norm_num) (by norm_num) (by norm_num) (by norm_num) (by decide)
-/-- … and with `ignore_warnings=True` the same file opens and exposes the 10 complete frames. -/
-example : ∃ h', openBin (realArith exactRounding) .online true (.ofMeta 385 30000 none false) 2 8100 = .ok h' ∧
-    nsOf (realArith exactRounding) .online h' 2 8100 = .ok 10 := by
-  obtain ⟨h', h1, _, h3⟩ := online_open_std exactRounding true 385 30000 none false 2 8100 (by norm_num)
-    (by norm_num) (by norm_num) (by norm_num) (Or.inl rfl) (by norm_num) (by norm_num) (by norm_num)
+/-- Recording in progress (the shipped fixture's situation: no `fileTimeSecs`, 10 frames and 400 trailing bytes):
+the online reader opens it and exposes the 10 complete frames. -/
+example : ∃ h', openBin (realArith binary64Rounding) .online (.ofMeta 385 30000 none) 2 8100 = .ok h' ∧
+    nsOf (realArith binary64Rounding) .online h' 2 8100 = .ok 10 := by
+  obtain ⟨h', h1, _, h3⟩ := online_open_std binary64Rounding 385 30000 none 2 8100 (by norm_num)
+    (by norm_num) (by norm_num) (by norm_num) (by norm_num) (by norm_num) (by norm_num)
   exact ⟨h', h1, by simpa [framesOnDisk] using h3⟩
 
 end IblVerif.C11
